@@ -123,7 +123,7 @@ def _vec_remove(M, fr, n, a):
     if is_sym(i): raise Unsupported('symbolic remove index')
     if i >= len(v.items): raise Panic('removal index out of bounds')
     return v.items.pop(i)
-@reg(r'^std::vec::Vec::clear$')
+@reg(r'^std::vec::Vec::clear$|^std::collections::(HashMap|HashSet|BTreeMap|BTreeSet|VecDeque|LinkedList)::(<.*>::)?clear$')
 def _vec_clear(M, fr, n, a): D(M, a[0]).items.clear(); return UNIT
 @reg(r'^std::vec::Vec::len$|^core::slice::<impl \[.*\]>::len$|^std::collections::VecDeque::len$|^std::collections::Hash(Map|Set)::len$')
 def _vec_len(M, fr, n, a): return len(seq(M, a[0]))
@@ -517,7 +517,9 @@ def _unwrap_or(M, fr, n, a):
 @reg(r'^std::option::Option::unwrap_or_default$')
 def _unwrap_or_default(M, fr, n, a):
     if disc_of(M, a[0]) == 1: return a[0].f[0]
-    raise Unsupported('unwrap_or_default on None')
+    m = re.match(r'^std::option::Option::<(.*)>::unwrap_or_default$', M.cur_callee)
+    if not m: raise Unsupported('unwrap_or_default on None')
+    return M.invoke(fr, '<%s as std::default::Default>::default' % m.group(1), [])
 @reg(r'^std::option::Option::unwrap_or_else$')
 def _opt_unwrap_or_else(M, fr, n, a):
     return a[0].f[0] if disc_of(M, a[0]) == 1 else M.call_closure(fr, a[1], [])
@@ -1335,3 +1337,100 @@ def _hm_get_key_value(M, fr, n, a):
     r = a[0]
     while isinstance(M.get(r.cell, r.path), Ref): r = M.get(r.cell, r.path)
     return some(Agg('()', [Ref(r.cell, r.path + (('i', i), ('f', 0))), Ref(r.cell, r.path + (('i', i), ('f', 1)))]))
+
+# ------------------------------------------------------------------ time crate by contract: Duration = exact signed nanoseconds (i128 range checks as documented)
+I64_MIN, I64_MAX = -(1 << 63), (1 << 63) - 1
+def _dur(ns): return Agg('time::Duration', [ns])
+def _dur_from(M, v, unit_ns, what):
+    v = simp(v)
+    if is_sym(v): raise Unsupported('symbolic time::Duration (use the Int-mode kernel)')
+    secs = v * unit_ns // 10 ** 9 if v >= 0 else -((-v * unit_ns) // 10 ** 9)
+    if not (I64_MIN <= secs <= I64_MAX): raise Panic('overflow constructing `time::Duration`')
+    return _dur(v * unit_ns)
+@reg(r'^time::Duration::(seconds|milliseconds|microseconds|nanoseconds|minutes|hours|days|weeks)$')
+def _dur_ctor(M, fr, n, a):
+    unit = n.rsplit('::', 1)[1]
+    ns = {'nanoseconds': 1, 'microseconds': 10 ** 3, 'milliseconds': 10 ** 6, 'seconds': 10 ** 9, 'minutes': 60 * 10 ** 9, 'hours': 3600 * 10 ** 9, 'days': 86400 * 10 ** 9, 'weeks': 7 * 86400 * 10 ** 9}[unit]
+    return _dur_from(M, a[0], ns, unit)
+@reg(r'^<time::Duration as std::ops::Add>::add$')
+def _dur_add(M, fr, n, a):
+    r = a[0].f[0] + a[1].f[0]
+    if not (I64_MIN <= (abs(r) // 10 ** 9) * (1 if r >= 0 else -1) <= I64_MAX): raise Panic('overflow when adding durations')
+    return _dur(r)
+@reg(r'^<time::Duration as std::ops::Mul<i32>>::mul$|^<time::Duration as std::ops::Mul<i64>>::mul$')
+def _dur_mul(M, fr, n, a):
+    k = simp(a[1])
+    if is_sym(k): raise Unsupported('symbolic duration factor')
+    r = a[0].f[0] * k
+    if not (I64_MIN <= (abs(r) // 10 ** 9) * (1 if r >= 0 else -1) <= I64_MAX): raise Panic('overflow when multiplying duration')
+    return _dur(r)
+@reg(r'^time::Duration::(whole_milliseconds|whole_nanoseconds|whole_microseconds|whole_seconds|is_negative|is_zero|is_positive|subsec_nanoseconds)$')
+def _dur_get(M, fr, n, a):
+    d = D(M, a[0]) if isinstance(a[0], Ref) else a[0]; ns = d.f[0]; op = n.rsplit('::', 1)[1]
+    q = lambda x, k: (abs(x) // k) * (1 if x >= 0 else -1)
+    return {'whole_nanoseconds': ns, 'whole_microseconds': q(ns, 10 ** 3), 'whole_milliseconds': q(ns, 10 ** 6), 'whole_seconds': q(ns, 10 ** 9),
+            'is_negative': ns < 0, 'is_zero': ns == 0, 'is_positive': ns > 0, 'subsec_nanoseconds': ns - q(ns, 10 ** 9) * 10 ** 9}[op]
+@reg(r'^<time::Duration as std::cmp::PartialEq>::eq$')
+def _dur_eq(M, fr, n, a): return D(M, a[0]).f[0] == D(M, a[1]).f[0]
+@reg(r'^<time::Duration as std::clone::Clone>::clone$')
+def _dur_clone(M, fr, n, a): return _dur(D(M, a[0]).f[0])
+
+@reg(r'^petgraph::visit::Dfs::<.*>::new(::<.*>)?$|^petgraph::visit::Dfs::new$')
+def _dfs_new(M, fr, n, a):
+    return Agg('Dfs', [VecV([_g_nodes(a[1])]), VecV([])])
+@reg(r'^petgraph::visit::Dfs::<.*>::next(::<.*>)?$|^petgraph::visit::Dfs::next$')
+def _dfs_next(M, fr, n, a):
+    """documented behaviour: preorder depth-first traversal; the order among the successors of a node is unspecified
+    (explored nondeterministically unless the machine is in deterministic mode, where petgraph's adjacency order is used)"""
+    d = D(M, a[0]); g = D(M, a[1]); stack = d.f[0].items; seen = d.f[1].items
+    while stack:
+        node = stack.pop()
+        if node in seen: continue
+        seen.append(node)
+        succ = [v for (u, v) in reversed(g.f[1].items) if u == node]
+        succ = [v for v in succ if v not in seen]
+        if len(succ) > 1 and not M.__dict__.get('toposort_deterministic'): succ = hash_order(M, succ, 'dfs')
+        stack.extend(succ)
+        return some(Agg('NodeIndex', [node]))
+    return none()
+
+@reg(r'^<(u8|u16|u32|u64|usize|u128|i8|i16|i32|i64|i128|isize) as std::convert::TryInto<(u8|u16|u32|u64|usize|u128|i8|i16|i32|i64|i128|isize)>>::try_into$')
+def _int_try_into(M, fr, n, a):
+    m = re.match(r'^<(\w+) as std::convert::TryInto<(\w+)>>::try_into$', n)
+    return _int_try_from(M, fr, '<%s as std::convert::TryFrom<%s>>::try_from' % (m.group(2), m.group(1)), a)
+@reg(r'^<.* as std::convert::TryInto<.*>>::try_into$')
+def _try_into_generic(M, fr, n, a):
+    m = re.match(r'^<(.*) as std::convert::TryInto<(.*)>>::try_into$', n)
+    return M.invoke(fr, '<%s as std::convert::TryFrom<%s>>::try_from' % (m.group(2), m.group(1)), a)
+
+# LinkedList by contract (as VecV)
+@reg(r'^std::collections::LinkedList::<.*>::new$|^std::collections::LinkedList::new$')
+def _ll_new(M, fr, n, a): return VecV()
+@reg(r'^std::collections::LinkedList::(<.*>::)?push_back$')
+def _ll_push_back(M, fr, n, a): D(M, a[0]).items.append(a[1]); return UNIT
+@reg(r'^std::collections::LinkedList::(<.*>::)?push_front$|^std::collections::VecDeque::(<.*>::)?push_front$')
+def _ll_push_front(M, fr, n, a): D(M, a[0]).items.insert(0, a[1]); return UNIT
+@reg(r'^std::collections::LinkedList::(<.*>::)?pop_front$')
+def _ll_pop_front(M, fr, n, a):
+    v = D(M, a[0]); return some(v.items.pop(0)) if v.items else none()
+@reg(r'^std::collections::LinkedList::(<.*>::)?pop_back$')
+def _ll_pop_back(M, fr, n, a):
+    v = D(M, a[0]); return some(v.items.pop()) if v.items else none()
+@reg(r'^std::collections::LinkedList::(<.*>::)?(front_mut|front)$|^std::collections::VecDeque::(<.*>::)?(front_mut|front)$')
+def _ll_front(M, fr, n, a):
+    rs = elem_refs(M, a[0]); return some(rs[0]) if rs else none()
+@reg(r'^std::collections::LinkedList::(<.*>::)?(back_mut|back)$|^std::collections::VecDeque::(<.*>::)?(back_mut|back)$')
+def _ll_back(M, fr, n, a):
+    rs = elem_refs(M, a[0]); return some(rs[-1]) if rs else none()
+@reg(r'^std::collections::LinkedList::(<.*>::)?(iter|iter_mut)$|^std::collections::VecDeque::(<.*>::)?iter_mut$')
+def _ll_iter(M, fr, n, a): return IterV(elem_refs(M, a[0]), 'ref')
+@reg(r'^std::collections::LinkedList::(<.*>::)?(len|is_empty)$')
+def _ll_len(M, fr, n, a):
+    k = len(D(M, a[0]).items); return k if n.endswith('len') else k == 0
+
+@reg(r'^std::collections::(HashSet|BTreeSet)::(<.*>::)?get$')
+def _hs_get(M, fr, n, a):
+    hs = D(M, a[0]); rs = elem_refs(M, a[0])
+    for i, e in enumerate(hs.items):
+        if M.branch(val_eq(M, fr, e, a[1])): return some(rs[i])
+    return none()
